@@ -167,7 +167,9 @@ def run(chk, repo):
     chk.attempt(trace_positions, chk, repo)
     chk.attempt(r5, chk, repo, L, covered_by="trace_positions", rules=("C01-R5",))
     chk.attempt(r6, chk, repo, L)
+    chk.attempt(r6_read_metadata, chk, repo, L, covered_by="trace_positions", rules=("C01-R6",))
     chk.attempt(open_array, chk, repo)
+    chk.attempt(r6_wiring, chk, repo, L, covered_by="open_array", rules=("C01-R6",))
     chk.attempt(load_rows, chk, repo)
     chk.attempt(r7, chk, repo, covered_by="load_rows")
     chk.attempt(r8, chk, repo, covered_by="load_rows")
@@ -176,10 +178,12 @@ def run(chk, repo):
 
 # ---------------------------------------------------------------------------
 def _table(mod, name):
+    from ..interproc import dict_entries
     e = mod.assigns.get(name)
-    if not e or not isinstance(e[-1], ast.Dict):
+    got = dict_entries(mod.repo, mod, e[-1]) if e else None
+    if not got:
         raise AnalysisError(f"anchor vanished: table {mod.name}:{name}")
-    return {const_str(k): v for k, v in zip(e[-1].keys, e[-1].values)}
+    return got
 
 
 def r1(chk, repo):
@@ -491,15 +495,65 @@ def r6(chk, repo, L):
                     "sar_related_data_in_the_record.number_of_data_groups_per_line", "prefix_suffix_data_locators.sar_data_format_type_code",
                     "sar_related_data_in_the_record.number_of_bytes_per_data_group", "sar_related_data_in_the_record.number_of_bits_per_sample")
     compare(chk, "C01-R6", L, "image_descriptor", select=lambda p: p in PIXEL_FIELDS)
-    es = md.func("extract_shape")
-    ret = single_return(es)
-    if not isinstance(ret, ast.Tuple) or len(ret.elts) != 2:
-        chk.fail("C01-R6", f"{md.relpath}:extract_shape", f"shape is {short(ret, 60) if ret is not None else '?'}, expected a (lines, pixels) pair", key="shape:tuple")
-    else:
-        check_field(es, ret.elts[0], "sar_related_data_in_the_record.number_of_lines_per_dataset", "shape[0] (lines)", "shape:lines")
-        check_field(es, ret.elts[1], "sar_related_data_in_the_record.number_of_data_groups_per_line", "shape[1] (pixels)", "shape:pixels")
-    ef = md.func("extract_format_type")
-    check_field(ef, single_return(ef), "prefix_suffix_data_locators.sar_data_format_type_code", "sample type code", "type_code")
+    r6_inferred(chk, repo, L)
+
+
+def r6_inferred(chk, repo, L):
+    """the array metadata transform_metadata hands to the pixel array, by shape inference on (descriptor record, n parsed line
+    records) - whatever the helper functions look like: shape = the header's (lines per dataset, data groups per line), type code =
+    the header's sample format code, advertised dtype = the table entry of that code, byte ranges = (data.start, data.stop) of every
+    parsed record, in order"""
+    from ..poly import Poly
+    from ..shapes import Choice, DictS, Interp, Leaf, ListLit, ListOf, ShapeError, TupS, _Raise, shape_of_con
+    md = repo.module(IMG_MD)
+    where = f"{md.relpath}:transform_metadata"
+    I = Interp(repo)
+    n_lines = Poly.sym("n_lines")
+    for rec_name in ("signal", "processed"):
+        try:
+            out = I.call(I.resolve_global(md, "transform_metadata"), [shape_of_con(L.con("image_descriptor")), ListOf(shape_of_con(L.con(rec_name)), n_lines)], {})
+        except (_Raise, ShapeError, RecursionError) as e:
+            raise AnalysisError(f"{where}: shape inference fails ({str(e)[:100]}); the wiring of the array metadata is not decided")
+        if not (isinstance(out, TupS) and len(out.elts) == 2 and isinstance(out.elts[1], DictS)):
+            raise AnalysisError(f"{where}: result is not (group, array metadata): {out!r:.80}")
+        am = out.elts[1]
+
+        def leaf_path(x):
+            return ".".join(x.src) if isinstance(x, Leaf) and not x.ops and not x.also else None
+        shape = am.items.get("shape")
+        if not (isinstance(shape, (TupS, ListLit)) and len(shape.elts) == 2):
+            raise AnalysisError(f"{where}: array metadata 'shape' is {shape!r:.80}; not decided")
+        for axis, (x, want, what) in enumerate(zip(shape.elts, ("sar_related_data_in_the_record.number_of_lines_per_dataset", "sar_related_data_in_the_record.number_of_data_groups_per_line"), ("lines", "pixels"))):
+            got = leaf_path(x)
+            if got is None and not isinstance(x, Leaf):
+                raise AnalysisError(f"{where}: shape[{axis}] is {x!r:.80}; its origin is not decided by shape inference")
+            chk.require(got == want, "C01-R6", where, f"shape[{axis}] ({what}) = header[{want}] ({rec_name})",
+                        f"shape[{axis}] ({what}) is {x!r:.90}, expected the header field {want!r} as it stands", key=f"shape:{what}", sample={"what": f"shape[{axis}]", "field": got})
+        tc = am.items.get("type_code")
+        got = leaf_path(tc)
+        if got is None and not isinstance(tc, Leaf):
+            raise AnalysisError(f"{where}: type_code is {tc!r:.80}; not decided")
+        chk.require(got == "prefix_suffix_data_locators.sar_data_format_type_code", "C01-R6", where, f"sample type code = header[prefix_suffix_data_locators.sar_data_format_type_code] ({rec_name})",
+                    f"sample type code is {tc!r:.90}, expected the header's sar_data_format_type_code", key="type_code")
+        dt = am.items.get("dtype")
+        keyed = isinstance(dt, Choice) and dt.labels and all("key" in str(l) for l in dt.labels)
+        if not keyed:
+            raise AnalysisError(f"{where}: the advertised dtype is {dt!r:.80}: not a table lookup keyed by a field; not decided")
+        chk.ok("C01-R6", where, "advertised dtype is a table entry selected by the header's type code")
+        br = am.items.get("byte_ranges")
+        if not (isinstance(br, ListOf) and isinstance(br.elem, (TupS, ListLit)) and len(br.elem.elts) == 2):
+            raise AnalysisError(f"{where}: byte_ranges is {br!r:.80}; not decided")
+        ends = [leaf_path(x) for x in br.elem.elts]
+        if None in ends and not all(isinstance(x, Leaf) for x in br.elem.elts):
+            raise AnalysisError(f"{where}: byte range ends are {br.elem!r:.80}; not decided")
+        chk.require(ends == ["data.start", "data.stop"] and br.n == n_lines and not getattr(br, "tags", None), "C01-R6", where, f"byte_ranges = [(m['data']['start'], m['data']['stop']) for every record, in order] ({rec_name})",
+                    f"byte ranges are {br!r:.100}: not (data.start, data.stop) of every parsed record in order", key="byte_ranges")
+
+
+def r6_read_metadata(chk, repo, L):
+    """form rules on read_metadata (decided by evaluation on model files in C01-R9 when it is written differently)"""
+    io = repo.module(IMG_IO)
+    hdr = L.by_name("image_descriptor")
     rm = io.func("read_metadata")
     flow = Flow(rm)
     used = {}
@@ -508,7 +562,11 @@ def r6(chk, repo, L):
             used[const_str(n.slice)] = n
     for f, what in (("number_of_sar_data_records", "record count"), ("sar_data_record_length", "record length")):
         n = used.get(f)
-        ok = n is not None and f in hdr and "read_file_descriptor" in norm(flow.expand(n.value))
+        if n is None:
+            raise AnalysisError(f"{io.relpath}:read_metadata: no subscript with the key {f!r}; not decided by the form rule")
+        ok = f in hdr and "read_file_descriptor" in norm(flow.expand(n.value))
+        if not ok and f in hdr:
+            raise AnalysisError(f"{io.relpath}:read_metadata: {f} is read from {short(flow.expand(n.value), 50)}, not recognisably from the parsed descriptor; not decided by the form rule")
         chk.require(ok, "C01-R6", f"{io.relpath}:read_metadata", f"{what} = header[{f!r}]", f"{what} is not read from header[{f!r}]", key=f"read_metadata:{f}")
     # the count drives the chunk sizes, the length the read sizes
     nrec = [name for name, ent in rm.local_bindings().items() for k, v in ent if k == "assign" and isinstance(v, ast.Subscript) and const_str(v.slice) == "number_of_sar_data_records"]
@@ -530,17 +588,12 @@ def r6(chk, repo, L):
     if not nrec:
         raise AnalysisError(f"{io.relpath}:read_metadata: the header's record count is not bound to a local; dependence of the requests on it not decided")
     chk.require(ok, "C01-R6", f"{io.relpath}:read_metadata", "chunk sizes are derived from the header's record count", "chunk sizes do not depend on the header's record count", key="read_metadata:chunksizes-from-count")
-    # byte ranges
+
+
+def r6_wiring(chk, repo, L):
+    """form rules on the hand-over of the array metadata to Array (decided by evaluation of open_image in C01-R11 when written differently)"""
+    md = repo.module(IMG_MD)
     tm = md.func("transform_metadata")
-    br = Flow(tm).single_def("byte_ranges")
-    ok = False
-    if isinstance(br, ast.ListComp) and len(br.generators) == 1 and not br.generators[0].ifs and isinstance(br.elt, ast.Tuple) and len(br.elt.elts) == 2:
-        g = br.generators[0]
-        v = norm(g.target)
-        a, b = br.elt.elts
-        ok = norm(a).replace('"', "'") == f"{v}['data']['start']" and norm(b).replace('"', "'") == f"{v}['data']['stop']" and norm(g.iter) == tm.positional_params[1]
-    chk.require(ok, "C01-R6", f"{md.relpath}:transform_metadata", "byte_ranges = [(m['data']['start'], m['data']['stop']) for every record, in order]",
-                f"byte ranges are {short(br, 80) if br is not None else '?'}", key="byte_ranges")
     # array metadata feeds every Array init field exactly once
     am = repo.module(ARRAY)
     fields = dataclass_fields(am.classes["Array"])
@@ -563,14 +616,6 @@ def r6(chk, repo, L):
     provided = set(explicit) | (set(akeys) if star and norm(star[0].value) == "array_metadata" else set())
     chk.require(provided == set(fields) and not (explicit & set(akeys)), "C01-R6", f"{oi.module.relpath}:open_image",
                 f"Array receives each of {fields} exactly once", f"Array receives {sorted(provided)}, its init fields are {fields}", key="Array:fields")
-    for f, want in (("shape", "shape"), ("type_code", "type_code"), ("byte_ranges", "byte_ranges")):
-        v = akeys.get(f)
-        chk.require(v is not None and norm(v) == want, "C01-R6", f"{md.relpath}:transform_metadata", f"array_metadata[{f!r}] = {want}",
-                    f"array_metadata[{f!r}] = {norm(v) if v is not None else None}", key=f"array_metadata:{f}")
-    dv = akeys.get("dtype")
-    dsrc = Flow(tm).expand(dv) if dv is not None else None
-    chk.require(dsrc is not None and "dtypes.get(" in norm(dsrc) and "extract_format_type" in norm(dsrc), "C01-R6", f"{md.relpath}:transform_metadata",
-                "advertised dtype is the table entry of the header's type code", f"advertised dtype is {short(dsrc, 60) if dsrc is not None else None}", key="array_metadata:dtype")
     urlkw = {k.arg: norm(k.value) for k in ctor.keywords if k.arg}
     chk.require(urlkw.get("url") == oi.positional_params[1] and urlkw.get("fs") == "fs", "C01-R6", f"{oi.module.relpath}:open_image",
                 "the Array reads the same file (path) through the filesystem built from the live mapper", f"Array url/fs are {urlkw.get('url')}/{urlkw.get('fs')}", key="Array:url-fs")
@@ -578,16 +623,31 @@ def r6(chk, repo, L):
 
 def r7(chk, repo):
     am = repo.module(ARRAY)
-    pi = am.func("Array.__post_init__")
+    pi = am.func_any("Array.__post_init__", "Array.__init__")
     gi = am.func("Array.__getitem__")
-    # post_init: the call computing chunk_offsets is the last statement and passes self.records_per_chunk
-    offs = [st for st in pi.node.body if isinstance(st, ast.Assign) and norm(st.targets[0]) == "self.chunk_offsets"]
-    rpc_stores = [n.lineno for n in pi.own_nodes() if isinstance(n, ast.Assign) and any(norm(t) == "self.records_per_chunk" for t in n.targets)]
-    last = offs[-1] if offs else pi.node.body[-1]
-    ok = bool(offs) and isinstance(last.value, ast.Call) and norm(last.value.func) == "compute_chunk_offsets" \
-        and [norm(a) for a in last.value.args] == ["self.byte_ranges", "self.records_per_chunk"] and all(ln < last.lineno for ln in rpc_stores)
-    chk.require(ok, "C01-R7", f"{am.relpath}:Array.__post_init__", "chunk_offsets = compute_chunk_offsets(self.byte_ranges, self.records_per_chunk), computed after the normalisation of the chunk size",
-                f"the offsets table is built by {short(last, 80)} (must use self.records_per_chunk after its normalisation)", key="post_init:offsets-key")
+    # the initialiser computes the offsets table from the byte ranges and the chunk size AFTER its normalisation
+    from ..dataflow import canon_self, init_aliases, is_access_path
+    where_pi = f"{am.relpath}:{pi.qualname}"
+    ali = init_aliases(pi)
+    offs = [n for n in pi.own_nodes() if isinstance(n, ast.Assign) and any(norm(t) == "self.chunk_offsets" for t in n.targets)]
+    if len(offs) != 1 or not isinstance(offs[0].value, ast.Call) or not any(x.key.endswith(":compute_chunk_offsets") for x in resolve_callees(repo, pi, offs[0].value.func)):
+        raise AnalysisError(f"{where_pi}: self.chunk_offsets is not assigned once from compute_chunk_offsets(...); not decided by the form rule")
+    last = offs[0]
+    from ..interproc import bind_args as _bind
+    bound, _ = _bind(resolve_callees(repo, pi, last.value.func)[0], last.value)
+    callee = resolve_callees(repo, pi, last.value.func)[0].func
+    a_ranges, a_size = bound.get(callee.positional_params[0]), bound.get(callee.positional_params[1])
+    if a_ranges is None or a_size is None:
+        raise AnalysisError(f"{where_pi}: arguments of compute_chunk_offsets not bound; not decided by the form rule")
+    t_ranges, t_size = canon_self(pi, a_ranges, ali), canon_self(pi, a_size, ali)
+    rpc_stores = [n for n in pi.own_nodes() if isinstance(n, ast.Assign) and any(norm(t) == "self.records_per_chunk" for t in n.targets)]
+    if t_ranges != "self.byte_ranges" and not is_access_path(a_ranges):
+        raise AnalysisError(f"{where_pi}: the offsets table is computed from `{t_ranges}`; not decided by the form rule")
+    if t_size != "self.records_per_chunk" and not (isinstance(a_size, ast.Name) and a_size.id in pi.params):
+        raise AnalysisError(f"{where_pi}: the offsets table is keyed by `{t_size}`; whether that is the normalised chunk size is not decided by the form rule")
+    ok = t_ranges == "self.byte_ranges" and t_size == "self.records_per_chunk" and all(n.lineno < last.lineno for n in rpc_stores)
+    chk.require(ok, "C01-R7", where_pi, "chunk_offsets = compute_chunk_offsets(self.byte_ranges, self.records_per_chunk), computed after the normalisation of the chunk size",
+                f"the offsets table is built by {short(last, 80)} (must use the byte ranges and self.records_per_chunk after its normalisation; found `{t_ranges}`, `{t_size}`)", key="post_init:offsets-key")
     gcall = None
     for c in calls_in(gi):
         if any(x.key.endswith(":groupby_chunks") for x in resolve_callees(repo, gi, c.func)):
